@@ -146,6 +146,34 @@ def consts_of(xt, fn, n, buf="o", extra=()):
     return out
 
 
+def iap_witness(xt, bufs):
+    """native search: integrate_absolute_polynomial against the exact integral obtained by splitting at the real zeros"""
+    import itertools, math
+    def exact(t0, t1, A, B, C):
+        Fi = lambda x: A * x ** 3 / 3 + B * x * x / 2 + C * x
+        pts = [t0, t1]
+        if abs(A) > 1e-9:
+            disc = B * B - 4 * A * C
+            if disc > 0:
+                pts += [(-B - math.sqrt(disc)) / (2 * A), (-B + math.sqrt(disc)) / (2 * A)]
+        elif abs(B) > 1e-9:
+            pts.append(-C / B)
+        pts = sorted(p for p in pts if t0 <= p <= t1)
+        return sum(abs(Fi(b) - Fi(a)) for a, b in zip(pts[:-1], pts[1:]))
+    for (t0, t1, A, B, C) in itertools.product((-3.0, 0.0, 2.0, 4.0), (1.0, 3.0, 6.0), (-1.0, 1.0, 2.0), (-10.0, 0.0, 5.0), (-6.0, -1.0, 12.0)):
+        if t0 >= t1:
+            continue
+        env = dict(t0=t0, t1=t1, A=A, B=B, C=C)
+        try:
+            got = xt.call_native("iap", bufs, env, "so-gcc")["o"][0]
+        except Exception:
+            return None
+        want = exact(t0, t1, A, B, C)
+        if abs(got - want) > 1e-9 * (1 + abs(want)):
+            return dict(env=env, value=got, exact=want)
+    return None
+
+
 def close(a, b, tol=Fraction(1, 10 ** 9)):
     return abs(a - b) <= tol * max(1, abs(b))
 
@@ -338,6 +366,39 @@ def run_runtime(tier="quick", seed=0):
             m1, m2 = mids
             want = dag.call("fabs", dd.sub(dd.add(dd.sub(F(t1), F(t0)), dd.mul(dag.const(2), F(m1))), dd.mul(dag.const(2), F(m2))))
             prove_pairs(res, oid + "/structure", [("value", out, want)], None, None, pv, None, seed=seed)
+            # the break points are ordered and lie inside the interval: t0 <= m1 <= m2 <= t1 follows from the path's own comparisons
+            # (z3, real arithmetic; sqrt(.) >= 0 and the precondition t0 <= t1; +inf sentinels of the source are larger than everything)
+            try:
+                import z3
+                from . import c14
+                conv, INF = c14.z3_abstract()
+                cons = c14.path_constraints(pv, conv)
+                for n_ in dag.topo([out] + [a_[0] for a_ in pv.atoms]):
+                    if n_.op == "call" and n_.args[0] == "sqrt":
+                        cons.append(conv(n_) >= 0)
+                    if n_.op == "call" and n_.args[0] == "fabs":
+                        xa = conv(n_.args[1])
+                        cons.append(conv(n_) == z3.If(xa >= 0, xa, -xa))
+                zt0, zt1, zm1, zm2 = conv(t0), conv(t1), conv(m1), conv(m2)
+                cons += [zt0 <= zt1, zt0 < INF, zt1 < INF, -INF < zt0, -INF < zt1]
+                for gname, goal in (("t0<=m1", zt0 <= zm1), ("m1<=m2", zm1 <= zm2), ("m2<=t1", zm2 <= zt1)):
+                    sol = z3.Solver()
+                    sol.set("timeout", 20000)
+                    sol.add(*cons)
+                    sol.add(z3.Not(goal))
+                    r_ = sol.check()
+                    goid = "%s/break-points-ordered-inside-interval/%s" % (oid, gname)
+                    if r_ == z3.unsat:
+                        res.add(goid, "proved", "z3", 0.0, "implied by the path condition")
+                    elif r_ == z3.sat:
+                        wit = iap_witness(xt, bufs)
+                        res.add(goid, "refuted", "z3", 0.0, "the path condition does not imply %s (m1 = %s, m2 = %s)" % (gname, dag.show(m1, 3), dag.show(m2, 3)),
+                                witness=wit, extra=dict(confirmed=wit is not None, replay=write_replay(goid, dict(obligation=goid, m1=dag.show(m1, 5), m2=dag.show(m2, 5),
+                                                                                                             path=[(t_[0], t_[1]) for t_ in pv.trace], witness=wit))))
+                    else:
+                        res.add(goid, "error", "z3", 0.0, "z3: unknown")
+            except ValueError as e_:
+                res.add(oid + "/break-points-ordered-inside-interval", "error", "z3", 0.0, repr(e_))
             for nm, m in (("m1", m1), ("m2", m2)):
                 if m in (t0, t1) or (m.op == "special"):
                     continue
